@@ -1,9 +1,10 @@
 SPECIFICATION Spec
 CONSTANTS
-  Inputs = {1}
-  Biases = {2}
-  Hidden = {4}
-  OutSet = {3}
+  Inputs = {1, 2}
+  Biases = {3, 4}
+  Hidden = {7, 8}
+  OutSet = {5, 6}
+  Shapes = {{1, 3, 5, 7}, {1, 5, 7}, {1, 3, 4, 5}}
   Weights <- W4
   InVals <- V4
   OrderKinds = {"IBOH", "BIHO", "IBHO"}
